@@ -107,7 +107,7 @@ Proof.
   unfold runQ. destruct (cg_run Qc (Q2Qc 0) Qcplus Qcmult Qcminus Qcopp Qcdiv Qc_eq_bool Qc_ltb (mvQ M) (Q2Qc 0) b x0 m) as [[y|] h] eqn:Er;
     [|cbn in Hfin; congruence].
   exists y, h. split; [reflexivity|].
-  exact (cg_exact_within_n Qc _ _ _ _ _ _ _ _ Qcft Qc_eq_bool Qc_ltb Qc_eq_bool_spec (mvQ M) (mvQ_add M) (mvQ_scale M) (Q2Qc 0) n Hl Hs
+  exact (cg_exact_within_n Qc _ _ _ _ _ _ _ _ Qcft Qc_eq_bool Qc_ltb Qc_eq_bool_spec (mvQ M) (mvQ_add M) (mvQ_scale M) (Q2Qc 0) n Hl (pdQ_definite n M Hpd) Hs
            _ _ (initQ_r_len n M b x0 HM Hb) b x0 m y h eq_refl Hnm Hb eq_refl Er).
 Qed.
 
